@@ -8,6 +8,7 @@ let parse_cmd tok = match String.split_on_char ':' tok with
   | ["P"; c; t] -> Push (nat_of_int (int_of_string c), nat_of_int (int_of_string t))
   | ["R"; t] -> Remove (nat_of_int (int_of_string t))
   | ["D"] -> Dispatch
+  | ["LOOP"] -> Loop
   | _ -> failwith ("cmd " ^ tok)
 let parse_list s = List.map parse_cmd (split_ws s)
 let label_s = function
@@ -57,9 +58,10 @@ let () = each_line (fun line ->
         | _ -> Buffer.add_string buf (Printf.sprintf " %d:-" ti) end) sched;
       let s = !s in
       let outs = List.sort compare (List.map (function Digest c -> (int_of_nat c, "digest") | Cancelled c -> (int_of_nat c, "cancel")) s.notes) in
-      Buffer.add_string buf (Printf.sprintf " | F %s%s E %s O %s H %d Q %d.%d M %d.%d"
+      Buffer.add_string buf (Printf.sprintf " | F %s%s E %s O %s H %d Q %d.%d M %d.%d B %d"
         (b (s.td0 = [])) (b (s.td1 = [])) (b s.err)
         (String.concat "," (List.map (fun (c, o) -> Printf.sprintf "%d:%s" c o) outs))
-        (List.length s.hq) (List.length s.cq) (List.length s.dn) (int_of_nat s.mq) (int_of_nat s.dq));
+        (List.length s.hq) (List.length s.cq) (List.length s.dn) (int_of_nat s.mq) (int_of_nat s.dq)
+        (List.length s.hq) (* blocking mapping references held = one per pending node (released in the notification) *));
       Buffer.contents buf
   | _ -> "BADCASE")
